@@ -581,6 +581,15 @@ def residual_tokens(s):
         if re.search(r, code): bad.append(r)
     return bad
 
+def _close_of(t, p):
+    d = 0
+    for q in range(p, len(t)):
+        if t[q] in '([{': d += 1
+        elif t[q] in ')]}':
+            d -= 1
+            if d == 0: return q
+    return -1
+
 def assigned_idents(body):
     """identifiers (and member names) syntactically written in a loop body: x = , x op=, ++x, x++, &x, ->m =, .m ="""
     t = [x for x in toks(body) if not x.isspace()]
@@ -610,6 +619,9 @@ def assigned_idents(body):
                 elif t[j] == ',' and d == 1: break
                 if d == 0: break
                 j += 1
+            # A_STORE(NAME(args), ...): the object is whatever the accessor macro NAME addresses (the macro must be named in the havoc list); its arguments are index expressions, not written objects
+            if j - (i + 2) >= 3 and IDENT.match(t[i + 2]) and t[i + 3] == '(' and t[j - 1] == ')' and _close_of(t, i + 3) == j - 1:
+                out.add(t[i + 2]); continue
             ids = [y for k, y in enumerate(t[i + 2:j], i + 2) if IDENT.match(y) and y != 'self' and not y.endswith('_t') and not (k + 1 < len(t) and t[k + 1] == '(')   # a macro/function applied to the object is not the object
                    and y not in ('unsigned', 'signed', 'int', 'long', 'short', 'char', 'struct', 'const', 'void', 'bool', '_Bool')]
             # the written object: every identifier that is not an index expression is over-approximated in
